@@ -96,6 +96,25 @@ type inst struct {
 	s    *Sys
 	srv  *pppoe.Server
 	sock *pppoe.VerifSocket
+	// one receive buffer reused for every frame, exactly like Server.receiveLoop: the source MAC and
+	// the payload handed to the handlers are slices of it
+	rx [1522]byte
+}
+
+// deliver copies the frame into the shared receive buffer and calls the handler with slices of it.
+func (in *inst) deliver(src net.HardwareAddr, discovery bool, payload []byte) {
+	for i := range in.rx {
+		in.rx[i] = 0
+	}
+	copy(in.rx[0:6], serverMAC)
+	copy(in.rx[6:12], src)
+	n := 14 + copy(in.rx[14:], payload)
+	srcMAC := net.HardwareAddr(in.rx[6:12])
+	if discovery {
+		in.srv.VerifHandleDiscovery(srcMAC, in.rx[14:n])
+	} else {
+		in.srv.VerifHandleSession(srcMAC, in.rx[14:n])
+	}
 }
 
 func (s *Sys) New() core.Instance {
@@ -203,9 +222,9 @@ func (in *inst) Apply(ev core.Event) map[string]any {
 	before := len(in.srv.VerifSessions())
 	switch op {
 	case "PADI":
-		in.srv.VerifHandleDiscovery(src, discovery(pppoe.CodePADI, 0, []pppoe.Tag{{Type: pppoe.TagServiceName, Value: []byte("internet")}, {Type: pppoe.TagHostUniq, Value: []byte{byte(m)}}}))
+		in.deliver(src, true, discovery(pppoe.CodePADI, 0, []pppoe.Tag{{Type: pppoe.TagServiceName, Value: []byte("internet")}, {Type: pppoe.TagHostUniq, Value: []byte{byte(m)}}}))
 	case "PADR":
-		in.srv.VerifHandleDiscovery(src, discovery(pppoe.CodePADR, 0, []pppoe.Tag{{Type: pppoe.TagServiceName, Value: []byte("internet")}, {Type: pppoe.TagACCookie, Value: []byte("0123456789abcdef")}}))
+		in.deliver(src, true, discovery(pppoe.CodePADR, 0, []pppoe.Tag{{Type: pppoe.TagServiceName, Value: []byte("internet")}, {Type: pppoe.TagACCookie, Value: []byte("0123456789abcdef")}}))
 		// PADR spawns the LCP Configure-Request in a goroutine: wait for it (PADS + LCP frame)
 		if len(in.srv.VerifSessions()) > before {
 			deadline := time.Now().Add(2 * time.Second)
@@ -214,29 +233,29 @@ func (in *inst) Apply(ev core.Event) map[string]any {
 			}
 		}
 	case "PADT":
-		in.srv.VerifHandleDiscovery(src, discovery(pppoe.CodePADT, sid, nil))
+		in.deliver(src, true, discovery(pppoe.CodePADT, sid, nil))
 	case "LCPCR":
-		in.srv.VerifHandleSession(src, session(sid, pppoe.ProtocolLCP, lcp(pppoe.LCPCodeConfigRequest, 7, pppoe.SerializeLCPOptions([]pppoe.LCPOption{{Type: pppoe.LCPOptMRU, Data: []byte{5, 0xd4}}, {Type: pppoe.LCPOptMagicNumber, Data: []byte{1, 2, 3, byte(m)}}}))))
+		in.deliver(src, false, session(sid, pppoe.ProtocolLCP, lcp(pppoe.LCPCodeConfigRequest, 7, pppoe.SerializeLCPOptions([]pppoe.LCPOption{{Type: pppoe.LCPOptMRU, Data: []byte{5, 0xd4}}, {Type: pppoe.LCPOptMagicNumber, Data: []byte{1, 2, 3, byte(m)}}}))))
 	case "LCPACK":
-		in.srv.VerifHandleSession(src, session(sid, pppoe.ProtocolLCP, lcp(pppoe.LCPCodeConfigAck, 1, nil)))
+		in.deliver(src, false, session(sid, pppoe.ProtocolLCP, lcp(pppoe.LCPCodeConfigAck, 1, nil)))
 	case "LCPNAK":
-		in.srv.VerifHandleSession(src, session(sid, pppoe.ProtocolLCP, lcp(pppoe.LCPCodeConfigNak, 1, pppoe.SerializeLCPOptions([]pppoe.LCPOption{{Type: pppoe.LCPOptMRU, Data: []byte{5, 0xd4}}}))))
+		in.deliver(src, false, session(sid, pppoe.ProtocolLCP, lcp(pppoe.LCPCodeConfigNak, 1, pppoe.SerializeLCPOptions([]pppoe.LCPOption{{Type: pppoe.LCPOptMRU, Data: []byte{5, 0xd4}}}))))
 	case "LCPTERM":
-		in.srv.VerifHandleSession(src, session(sid, pppoe.ProtocolLCP, lcp(pppoe.LCPCodeTermRequest, 9, nil)))
+		in.deliver(src, false, session(sid, pppoe.ProtocolLCP, lcp(pppoe.LCPCodeTermRequest, 9, nil)))
 	case "LCPECHO":
-		in.srv.VerifHandleSession(src, session(sid, pppoe.ProtocolLCP, lcp(pppoe.LCPCodeEchoRequest, 3, []byte{1, 2, 3, byte(m)})))
+		in.deliver(src, false, session(sid, pppoe.ProtocolLCP, lcp(pppoe.LCPCodeEchoRequest, 3, []byte{1, 2, 3, byte(m)})))
 	case "PAPGOOD":
-		in.srv.VerifHandleSession(src, session(sid, pppoe.ProtocolPAP, pap(1, "user", "good")))
+		in.deliver(src, false, session(sid, pppoe.ProtocolPAP, pap(1, "user", "good")))
 	case "PAPBAD":
-		in.srv.VerifHandleSession(src, session(sid, pppoe.ProtocolPAP, pap(2, "user", "bad")))
+		in.deliver(src, false, session(sid, pppoe.ProtocolPAP, pap(2, "user", "bad")))
 	case "PAPSLOW":
-		in.srv.VerifHandleSession(src, session(sid, pppoe.ProtocolPAP, pap(3, "user", "slow")))
+		in.deliver(src, false, session(sid, pppoe.ProtocolPAP, pap(3, "user", "slow")))
 	case "IPCPCR":
-		in.srv.VerifHandleSession(src, session(sid, pppoe.ProtocolIPCP, lcp(pppoe.LCPCodeConfigRequest, 4, pppoe.SerializeLCPOptions([]pppoe.LCPOption{{Type: pppoe.IPCPOptIPAddress, Data: []byte{0, 0, 0, 0}}}))))
+		in.deliver(src, false, session(sid, pppoe.ProtocolIPCP, lcp(pppoe.LCPCodeConfigRequest, 4, pppoe.SerializeLCPOptions([]pppoe.LCPOption{{Type: pppoe.IPCPOptIPAddress, Data: []byte{0, 0, 0, 0}}}))))
 	case "IPCPACK":
-		in.srv.VerifHandleSession(src, session(sid, pppoe.ProtocolIPCP, lcp(pppoe.LCPCodeConfigAck, 1, nil)))
+		in.deliver(src, false, session(sid, pppoe.ProtocolIPCP, lcp(pppoe.LCPCodeConfigAck, 1, nil)))
 	case "IP":
-		in.srv.VerifHandleSession(src, session(sid, pppoe.ProtocolIP, []byte{0x45, 0, 0, 20, 0, 0, 0, 0, 64, 17, 0, 0, 10, 64, 0, 2, 8, 8, 8, 8}))
+		in.deliver(src, false, session(sid, pppoe.ProtocolIP, []byte{0x45, 0, 0, 20, 0, 0, 0, 0, 64, 17, 0, 0, 10, 64, 0, 2, 8, 8, 8, 8}))
 	default:
 		panic("unknown op " + op)
 	}
